@@ -394,6 +394,17 @@ def pureStep (c : Cache) (l : String) : Cache × String :=
   | "fmtentry" => (c, match feederEntry (strTok (g 1)) (strTok (g 2)) with
       | some e => "ok " ++ encStr e
       | none => "err")
+  | "fmtentries" =>
+    let ids := ((g 1).splitOn ",").map strTok
+    let owners := ((g 2).splitOn ",").map strTok
+    -- the answer of each chain: the owner given with the first NFT that names the chain
+    let table : List (Str × Str) := (ids.zip owners).foldl (fun acc p => match parseNftId p.1 with
+      | some n => if alHas acc n.chain then acc else acc ++ [(n.chain, p.2)]
+      | none => acc) []
+    let es := ids.map (fun id => match parseNftId id with
+      | some n => feederEntry id ((alGet table n.chain).getD [])
+      | none => none)
+    (c, if es.all (·.isSome) then "ok " ++ ",".intercalate (es.map (fun e => encStr (e.getD []))) else "err")
   | "calcfees" =>
     let q := (decTok (g 1)).toNat
     let fees := parseCoins (g 2)
@@ -518,7 +529,7 @@ def anteInit (pr : Nat) (cr : Bool) : AState :=
     | .acct (.o i) => decide (i < 5)
     | _ => false) then 1000000000000000 else 0
   let a0 : AState := { s := { s0 with bank := funded }, grants := [], supply := fun d => if d = "uusdc".toList then 16000000000000000 else 0, prices := Facts.defaultGasPrices }
-  (realBlock a0).1
+  a0
 
 partial def anteLoop (stdin : IO.FS.Stream) (a : AState) : IO Unit := do
   let line ← stdin.getLine
@@ -534,6 +545,12 @@ partial def anteLoop (stdin : IO.FS.Stream) (a : AState) : IO Unit := do
       for d in dumpAnte r.a do
         IO.println ("| " ++ d)
       anteLoop stdin r.a
+    else if l.startsWith "sim " then
+      -- a simulated transaction (gas estimation): no trace
+      IO.println "< done"
+      for d in dumpAnte a do
+        IO.println ("| " ++ d)
+      anteLoop stdin a
     else if l == "genesis" then
       -- the application exported and a fresh one initialised from the document: the two modules' part of it
       match importG a.s (jsonG (exportG a.s)) with
